@@ -350,12 +350,18 @@ func runC03(c *eng.Ctx) {
 		}
 	}
 	if fn := c.Fn("server/commitlog.getHWPos"); fn != nil {
-		okShape := false
+		okShape, nOK := true, 0
 		for _, r := range eng.Returns(fn) {
 			if len(r.Results) == 3 && eng.NilConst(r.Results[2]) {
-				okShape = eng.BinComm(token.ADD, eng.LoadNamed("Position", nil), eng.LoadNamed("Size", nil))(r.Results[1])
+				nOK++
+				// every successful answer is the end of the entry that findEntry(hw) returned
+				ent := eng.Call(0, "server/commitlog.segment.findEntry")
+				if !eng.BinComm(token.ADD, eng.LoadNamed("Position", ent), eng.LoadNamed("Size", ent))(r.Results[1]) {
+					okShape = false
+				}
 			}
 		}
+		okShape = okShape && nOK > 0
 		c.Check(okShape, "getHWPos result", p.Pos(fn.Pos()), "entry.Position + entry.Size of the entry found for hw", "getHWPos does not return the end position (Position + Size) of the watermark entry")
 		fe := eng.CallsIn(fn, "server/commitlog.segment.findEntry")
 		c.Check(len(fe) == 1 && eng.Param("hw")(fe[0].Common().Args[1]), "getHWPos looks up hw", p.Pos(fn.Pos()), "findEntry(hw)", "getHWPos does not look up the entry of the high watermark offset")
